@@ -699,6 +699,9 @@ def build(tier='quick', seed=0):
         ('Vec<i32>', '', ['Debug', 'Clone', 'PartialEq', 'Eq', 'Hash', 'AsRef', 'Deref', 'Into', 'IntoIterator', 'Serialize', 'Deserialize', 'Arbitrary'],
          '|v| v.len() < 5', '|mut v| { v.sort(); v }'),
     ]
+    any_inners += [
+        ('Vec<T>', '<T: Clone + PartialEq>', ['Debug', 'Clone', 'PartialEq', 'AsRef', 'Deref', 'Into', 'IntoIterator', 'Borrow'], '|v| !v.is_empty()', '|mut v| { v.truncate(3); v }'),
+    ]
     if thorough:
         any_inners += [
             ('Option<T>', '<T: Clone>', ['Debug', 'Clone', 'PartialEq', 'AsRef', 'Deref', 'Into'], '|o| o.is_some()', None),
